@@ -13,7 +13,7 @@ import time
 
 VERIF = os.path.dirname(os.path.dirname(os.path.abspath(__file__)))
 REPO = os.environ.get('VERIF_REPO', '/repo')
-COQ = os.path.join(VERIF, 'coq')
+COQ = os.environ.get('VERIF_COQ_DIR') or os.path.join(VERIF, 'coq')      # (the override is for development)
 BUILD = os.path.join(VERIF, 'build')
 NCPU = os.cpu_count() or 4
 
